@@ -125,10 +125,10 @@ def bundle_decisions_by_index(base_path, decisions):
             'decision has incorrect base path: %r vs %r' % (d.common_path, base_path))
         if len(d.common_path) > level:
             # At least patch/patch will have common_path on a particular item
+            # (the decision is kept on its own path: actions such as clear
+            # or take_max are relative to it, and the diffs are brought to
+            # the level of the list where they are collected)
             key = d.common_path[level]
-            # Wrap decision diffs in patches so common_path points to list
-            prefix = d.common_path[level:]
-            d = push_patch_decision(d, prefix)
         else:
             # Removerange or addrange will have common_path
             # on list and key only in the diff entries
